@@ -18,6 +18,10 @@ Readings adopted (DESIGN.md section 7, always the one demanding less of the code
     (nothing pending in its notification channel, no tick pending).
   - "another valid known path avoids that interface" = a cached Valid path not matching the target
     and not hit by any accepted report during the last RECOVER window (10 half-lives).
+  - "while the penalty is fresh" = for one half-life of the fastest decay the stack applies to a penalty
+    (cached issues: 30 s = 1 tick).  A return to the failed interface is structurally excluded by the swap
+    hysteresis for as long as any penalty is left; the window only bounds the obligation to LEAVE a path that
+    became active although it was already penalised (it was the only valid one).
   - a report may be forgotten (bounded issue memory, C06) once issue_cache_size other issues were
     accepted after it; SteerAway makes no demand for such a report.
   - "issue memory stays within its configured size": the issue map holds at most issue_cache_size
@@ -30,7 +34,8 @@ import json
 
 UNIT = 30  # seconds per model tick: reliability half-life 90 s = 3 ticks, cached-issue half-life 30 s = 1 tick
 REL_HL = 3
-FRESH_WIN = REL_HL
+ISS_HL = 1
+FRESH_WIN = ISS_HL      # a report is fresh for the shortest half-life the stack applies to a penalty (30 s)
 RECOVER_WIN = 10 * REL_HL
 SRC_AS = 1
 
@@ -66,6 +71,42 @@ UNIVERSES = {
 }
 
 
+# ----------------------------------------------------------------------------- policies (universe A)
+ACL = {"k": "acl", "s": "- 1-666 +"}             # real sciparse AclPolicy: denies paths crossing AS 1-666 (path 4, variant bad666)
+HOP = {"k": "hop", "s": "0 0 0"}                 # real sciparse HopPatternPolicy: exactly three AS hops (rejects path 3)
+CLO = {"k": "closure", "reject_first_eg": 5}     # arbitrary predicate over the object: metadata with MTU >= 1200, first egress != 5 (rejects path 2)
+FAIL = {"k": "failing"}                          # evaluation always fails: every path counts as rejected
+POLICY_SETS = {
+    "none": [], "acl": [ACL], "closure": [CLO], "failing": [FAIL],
+    "acl+closure": [ACL, CLO], "closure+acl": [CLO, ACL],
+    "acl+hop+closure": [ACL, HOP, CLO], "hop+closure+acl": [HOP, CLO, ACL], "closure+acl+hop": [CLO, ACL, HOP],
+    "acl+failing": [ACL, FAIL], "failing+acl": [FAIL, ACL],
+}
+VARIANTS = ("nometa", "bad666", "lowmtu")
+
+
+def policy_rejects_id(pol, pid):
+    return {"acl": pid == 4, "hop": pid == 3, "closure": pid == 2, "failing": True}[pol["k"]]
+
+
+def policy_rejects_variant(pol, v):
+    if pol["k"] == "failing":
+        return True
+    if v == "nometa":
+        return True                      # no metadata: ACL / hop pattern cannot be evaluated, the predicate demands metadata
+    return (v == "bad666" and pol["k"] == "acl") or (v == "lowmtu" and pol["k"] == "closure")
+
+
+def allowed_ids(policy, u="A"):
+    pols = POLICY_SETS[policy]
+    return [p["id"] for p in UNIVERSES[u]["paths"] if not any(policy_rejects_id(q, p["id"]) for q in pols)]
+
+
+def rejected_variants(policy):
+    pols = POLICY_SETS[policy]
+    return [v for v in VARIANTS if any(policy_rejects_variant(q, v) for q in pols)]
+
+
 # ----------------------------------------------------------------------------- reference semantics
 def path_hops(p):
     """[(as, ingress, egress)] along the path; 0 = no interface (endpoints)."""
@@ -95,11 +136,7 @@ def issue_pen(i):
 def abstract_universe(u, policy="closure", nometa=()):
     U = UNIVERSES[u]
     paths = U["paths"]
-    allowed = [p["id"] for p in paths if p.get("ok", True) and not (policy == "acl" and p["id"] in nometa)]
-    if policy == "none":
-        allowed = [p["id"] for p in paths]
-    if policy == "failing":
-        allowed = []
+    allowed = allowed_ids(policy, u) if u == "A" else [p["id"] for p in paths]
     return {
         "paths": [p["id"] for p in paths],
         "hops": {p["id"]: len(p["transit"]) + 2 for p in paths},
@@ -117,7 +154,7 @@ def check_universe_printed(c, res, u):
     if not got:
         c.fail_tool("MC_PathSet did not print its universe")
     g = got[0]
-    ref = abstract_universe(u, policy="closure")
+    ref = abstract_universe(u, policy="acl")
     def norm_map(m):
         if isinstance(m, list):   # TLC prints functions over 1..n as arrays
             return {i + 1: v for i, v in enumerate(m)}
@@ -145,7 +182,7 @@ def backoff_tab(cfg, n=6):
     return out
 
 
-def harness_meta(u, cfg=None, policy="closure", late=1, nometa=(), unit=UNIT, extra=None):
+def harness_meta(u, cfg=None, policy="acl", late=1, nometa=(), unit=UNIT, extra=None, attach="vec"):
     cfg = dict(BASE_CFG, **(cfg or {}))
     U = UNIVERSES[u]
     paths = []
@@ -154,8 +191,8 @@ def harness_meta(u, cfg=None, policy="closure", late=1, nometa=(), unit=UNIT, ex
         q["meta"] = p["id"] not in nometa
         q["ok"] = p.get("ok", True)
         paths.append(q)
-    m = {"ev": "meta", "u": u, "unit": unit, "policy": policy, "late": late, "cfg": cfg, "paths": paths,
-         "issues": U["issues"], "nometa": list(nometa)}
+    m = {"ev": "meta", "u": u, "unit": unit, "policy": policy, "policies": POLICY_SETS[policy] if u == "A" else [],
+         "attach": attach, "late": late, "cfg": cfg, "paths": paths, "issues": U["issues"], "nometa": list(nometa)}
     if extra:
         m.update(extra)
     return m
@@ -167,7 +204,7 @@ CONSTANTS
   U = "{u}"
   Paths <- UPaths
   HopCount <- UHopCount
-  Allowed <- UAllowed
+  Allowed = {allowed}
   Issues <- UIssues
   IssueHits <- UHits
   IssuePen <- UPen
@@ -185,13 +222,18 @@ CONSTANTS
   Dedup = {dedup}
   SwapThr = {swap_thr}
   Late = {late}
+  FILTER_ALL = {filter_all}
   FIX_EXPIRY = {fix_expiry}
   FIX_FIFO = {fix_fifo}
+  BadSet = {bad_set}
   ExpChoices = {exp_choices}
   Depth = {depth}
   Horizon = {horizon}
   AdvSet = {adv_set}
   ReportSet = {report_set}
+  B1 = {b1}
+  B2 = {b2}
+  B3 = {b3}
   GEN = {gen}
 INVARIANTS
   {invariants}
@@ -207,10 +249,13 @@ def tla_set(xs):
 
 
 def mc_cfg(u, cfg=None, late=1, fix_expiry=True, fix_fifo=True, exp_choices=(1, 3, 6), depth=5, horizon=9,
-           max_adv=4, adv_set=None, report_set=(1,), gen=False, invariants=None):
+           max_adv=4, adv_set=None, report_set=(1,), gen=False, invariants=None, policy=None, bad_set=(), filter_all=True):
+    if policy is None:
+        policy = "acl" if u == "A" else "none"
     cfg = dict(BASE_CFG, **(cfg or {}))
-    if backoff_tab(cfg) != [2, 3]:
-        raise ValueError("MC_PathSet fixes the backoff table <<2, 3>>")
+    bt = [int(min(cfg["backoff_min"] * cfg["backoff_factor"] ** k, cfg["backoff_max"])) for k in (1, 2, 3)]
+    if bt[2] != max(backoff_tab(cfg, 12)):
+        raise ValueError("MC_PathSet models three backoff steps; the ceiling must be reached at the third failure")
     inv = list(invariants if invariants is not None else ALL_INVARIANTS)
     if gen:
         inv.append("Emit")
@@ -220,7 +265,9 @@ def mc_cfg(u, cfg=None, late=1, fix_expiry=True, fix_fifo=True, exp_choices=(1, 
                           late=late, fix_expiry="TRUE" if fix_expiry else "FALSE", fix_fifo="TRUE" if fix_fifo else "FALSE",
                           exp_choices=tla_set(exp_choices), depth=depth, horizon=horizon,
                           adv_set=tla_set(adv_set if adv_set is not None else range(1, max_adv + 1)),
-                          report_set=tla_set(report_set), gen="TRUE" if gen else "FALSE", invariants=" ".join(inv))
+                          report_set=tla_set(report_set), gen="TRUE" if gen else "FALSE", invariants=" ".join(inv),
+                          b1=bt[0], b2=bt[1], b3=bt[2], allowed=tla_set(abstract_universe(u, policy)["allowed"]),
+                          bad_set=tla_set(bad_set), filter_all="TRUE" if filter_all else "FALSE")
 
 
 # ----------------------------------------------------------------------------- histories
@@ -230,7 +277,10 @@ def act_key(a):
         f = a.get("fetch", {})
         if f.get("k") == "ok":
             ps = f.get("ps", f.get("paths", []))
-            return "T[" + ",".join("%d@%s" % (p["id"], p["exp"]) for p in sorted(ps, key=lambda p: p["id"])) + "]"
+            def one(p):
+                bad = (not p.get("ok", True)) or p.get("v", "ok") != "ok"     # returned as an object the policies reject
+                return "%d@%s%s" % (p["id"], p["exp"], ("~" + p["v"] if "v" in p else "~") if bad else "")
+            return "T[" + ",".join(one(p) for p in sorted(ps, key=lambda p: p["id"])) + "]"
         return "T" + {"empty": "0", "err": "!", "na": ""}.get(f.get("k"), "?")
     if k == "adv":
         return "+%d" % a["d"]
@@ -247,15 +297,24 @@ def hist_key(actions):
     return " ".join(act_key(a) for a in actions)
 
 
-def tlc_history_to_actions(h):
-    """history printed by MC_PathSet (list of {a, s}) -> harness actions + expected states"""
+def tlc_history_to_actions(h, rejected=(), salt=0):
+    """history printed by MC_PathSet (list of {a, s}) -> harness actions + expected states.
+    A returned path the model marks ok = FALSE is realised as one of the object variants the attached policies reject."""
     acts, exp = [], []
-    for st in h:
+    for k, st in enumerate(h):
         a = dict(st["a"])
         if a["a"] == "tick":
             f = dict(a["fetch"])
             if "ps" in f:
-                f["paths"] = sorted(f.pop("ps"), key=lambda p: p["id"])
+                ps = []
+                for p in sorted(f.pop("ps"), key=lambda p: p["id"]):
+                    q = {"id": p["id"], "exp": p["exp"], "v": "ok"}
+                    if not p.get("ok", True):
+                        if not rejected:
+                            raise ValueError("model returned a rejected object but the policy set rejects no variant")
+                        q["v"] = rejected[(salt + k + p["id"]) % len(rejected)]
+                    ps.append(q)
+                f["paths"] = ps
             a["fetch"] = f
         acts.append(a)
         exp.append(st["s"])
@@ -283,6 +342,7 @@ class Monitor:
         self.cfg = meta["cfg"]
         self.au = abstract_universe(meta["u"], policy=meta["policy"], nometa=meta.get("nometa", ()))
         self.allowed = set(self.au["allowed"])
+        self.rej = set(rejected_variants(meta["policy"])) if meta["u"] == "A" else set()
         self.cap = 1
         while self.cap < self.cfg["chan_cap"]:
             self.cap *= 2
@@ -324,8 +384,8 @@ class Monitor:
             if kind == "tick" and o.get("fetched"):
                 f = a.get("fetch", {})
                 ps = f.get("paths", f.get("ps", [])) if f.get("k") == "ok" else []
-                got = {(p["id"], p["exp"]) for p in ps}
-                ok = any(p["id"] in self.allowed for p in ps)
+                got = {(p["id"], p["exp"]) for p in ps if p["id"] in self.allowed and p.get("v", "ok") not in self.rej}
+                ok = bool(got)
                 if last_fetch is not None and now - last_fetch[0] < cfg["min_delay"]:
                     add("C06", "RefetchWindow:lookup-sooner-than-min-delay",
                         "lookups at %s and %s: sooner than min_refetch_delay=%s" % (last_fetch[0], now, cfg["min_delay"]), k)
@@ -360,13 +420,13 @@ class Monitor:
                     add("C06", "RefetchWindow:next-lookup-beyond-%s" % ("interval" if last_fetch[1] else "backoff-ceiling"),
                         "next lookup scheduled at %s, previous (%s) at %s, bound %s" % (s["nr"], "ok" if last_fetch[1] else "failed", last_fetch[0], hi), k)
             # ---- the slot / the hand-out
-            handouts = []
+            handouts = []      # (where, id, exp, verdict of the attached REAL policies evaluated directly on the object)
             if s.get("active") is not None:
-                handouts.append(("slot", s["active"]["id"], s["active"]["exp"]))
+                handouts.append(("slot", s["active"]["id"], s["active"]["exp"], s["active"].get("ok", True)))
             if kind == "send":
                 for oo in [o] + ([st["o2"]] if "o2" in st else []):
                     if oo.get("k") == "path":
-                        handouts.append(("send", oo["id"], oo["exp"]))
+                        handouts.append(("send", oo["id"], oo["exp"], oo.get("ok", True)))
                         if not (oo.get("src_ok") and oo.get("dst_ok")):
                             add("C05", "HandedOk:wrong-endpoints", "handed-out path does not connect the requested pair", k)
                     elif oo.get("k") == "panic":
@@ -378,10 +438,11 @@ class Monitor:
                     elif oo.get("k") in ("none", "error"):
                         if not tick_pending and any(self.cls(e["exp"], now) == "valid" for e in s["cache"]):
                             add("C06", "NoStarvation", "hand-out at %s returned no path although a Valid path is cached" % now, k)
-            for where, pid, exp in handouts:
-                if pid not in self.allowed:
+            for where, pid, exp, verdict in handouts:
+                if not verdict or pid not in self.allowed:
                     add("C05", "PolicyHonoured:%s" % self.meta["policy"],
-                        "path %s (%s) violates the attached policy (%s)" % (pid, where, self.meta["policy"]), k)
+                        "path %s (%s) is rejected by the attached policies [%s]%s" % (pid, where, self.meta["policy"],
+                        "" if not verdict else " (by construction; the direct evaluation of the real policies accepted the object)"), k)
                 if (pid, exp) not in ever_ok:
                     add("C05", "Provenance:not-from-a-lookup", "path %s exp %s (%s) was never returned by a successful lookup" % (pid, exp, where), k)
                 elif not tick_pending and (pid, exp) not in last_ok and not (exp is not None and exp > now):
@@ -476,15 +537,10 @@ def conformance(run, expected, tol=6):
             return {"step": k, "field": "report-outcome", "spec": eo, "real": o}, ties
         if kind == "ingest" and eo["res"] != o.get("k"):
             return {"step": k, "field": "ingest-outcome", "spec": eo, "real": o}, ties
-        for f in ("now", "nr", "ni", "failed", "used", "imap", "ififo"):
-            if e[f] != s[f]:
-                return {"step": k, "field": f, "spec": e[f], "real": s[f]}, ties
-        if bool(e["pend"]) != (s["pend"] > 0):
-            return {"step": k, "field": "pend", "spec": e["pend"], "real": s["pend"]}, ties
-        if max(0, e["nm"] - e["now"]) != s["nm"]:
-            return {"step": k, "field": "next_maintain", "spec": e["nm"] - e["now"], "real": s["nm"]}, ties
-        ec = [(x["id"], x["exp"]) for x in e["cache"]]
-        rc = [(x["id"], x["exp"]) for x in s["cache"]]
+        if e["now"] != s["now"]:
+            return {"step": k, "field": "now", "spec": e["now"], "real": s["now"]}, ties
+        ec = [(x["id"], x["exp"], bool(x.get("ok", True))) for x in e["cache"]]
+        rc = [(x["id"], x["exp"], bool(x.get("ok", True))) for x in s["cache"]]
         ea = None if e["active"]["id"] == 0 else (e["active"]["id"], e["active"]["exp"])
         ra = None if s["active"] is None else (s["active"]["id"], s["active"]["exp"])
         if ec != rc or ea != ra:
@@ -501,6 +557,13 @@ def conformance(run, expected, tol=6):
                     ties += 1
                     return None, ties   # the rest of the history depends on the tie-break
             return {"step": k, "field": "cache/active", "spec": {"cache": ec, "active": ea}, "real": {"cache": rc, "active": ra}}, ties
+        for f in ("nr", "ni", "failed", "used", "imap", "ififo"):
+            if e[f] != s[f]:
+                return {"step": k, "field": f, "spec": e[f], "real": s[f]}, ties
+        if bool(e["pend"]) != (s["pend"] > 0):
+            return {"step": k, "field": "pend", "spec": e["pend"], "real": s["pend"]}, ties
+        if max(0, e["nm"] - e["now"]) != s["nm"]:
+            return {"step": k, "field": "next_maintain", "spec": e["nm"] - e["now"], "real": s["nm"]}, ties
         for x, sc in zip(s["cache"], e["sc"]):
             if abs(x["sc"] - sc) > tol:
                 return {"step": k, "field": "score", "spec": sc, "real": x["sc"], "id": x["id"]}, ties
@@ -542,13 +605,19 @@ CONSTANTS
   Dedup = {dedup}
   SwapThr = {swap_thr}
   Late = {late}
+  FILTER_ALL = TRUE
   FIX_EXPIRY = {fix_expiry}
   FIX_FIFO = {fix_fifo}
-INVARIANTS ActiveInCache
+INVARIANTS ActiveInCache PolicyHonoured LiveAtHandout NoStarvation CacheBound IssueMapBound IssueFifoBound
 POSTCONDITION TraceAccepted
 CHECK_DEADLOCK FALSE
 """
 
+# P-invariants TLC evaluates on recorded executions -> (property, canonical key shared with the Python monitors)
+TRACE_INV_KEYS = {"PolicyHonoured": ("C05", "PolicyHonoured:<policy>"),
+                  "LiveAtHandout": ("C06", "LiveAtHandout:expired-path-in-slot-no-tick-pending"),
+                  "NoStarvation": ("C06", "NoStarvation"), "CacheBound": ("C06", "CacheBound"),
+                  "IssueMapBound": ("C06", "IssueBound:map-exceeds-cap"), "IssueFifoBound": ("C06", "IssueBound:fifo-grows")}
 REL_TAB = [10000, 7937, 6300]
 ISS_TAB = [10000]
 
@@ -577,14 +646,16 @@ def trace_meta(meta):
 
 def _state_ev(s):
     a = s["active"]
-    return {"now": s["now"], "cache": [{"id": e["id"], "exp": e["exp"], "rel": e["rel"]} for e in s["cache"]],
+    return {"now": s["now"], "cache": [{"id": e["id"], "exp": e["exp"], "rel": e["rel"], "ok": bool(e.get("ok", True))} for e in s["cache"]],
             "active": {"id": a["id"], "exp": a["exp"]} if a else {"id": 0, "exp": 0},
             "nr": s["nr"], "ni": s["ni"], "failed": s["failed"], "used": s["used"], "imap": s["imap"], "ififo": s["ififo"],
             "pend": s["pend"]}
 
 
-def run_to_events(run, allowed):
+def run_to_events(run, allowed, rej=()):
     """one recorded run -> trace events (None if the run contains off-grid values TLC cannot read)"""
+    def evps(ps):
+        return [{"id": p["id"], "exp": p["exp"], "ok": p.get("v", "ok") not in rej} for p in ps]
     evs = [{"ev": "reset"}]
     prev = run["steps"][0]["s"]
     for st in run["steps"][1:]:
@@ -593,7 +664,7 @@ def run_to_events(run, allowed):
         if s is None:
             if kind == "tick" and o.get("k") == "panic":
                 f = a.get("fetch", {"k": "na"})
-                evs.append({"ev": "tick", "f": {"k": f.get("k", "na"), "ps": f.get("paths", f.get("ps", []))}, "res": "panic",
+                evs.append({"ev": "tick", "f": {"k": f.get("k", "na"), "ps": evps(f.get("paths", f.get("ps", [])))}, "res": "panic",
                             "s": _state_ev(prev), "sc": {}, "raw": {}})
             break
         def tables():
@@ -618,12 +689,12 @@ def run_to_events(run, allowed):
             elif o.get("exit") == "idle":
                 res = "idle"
             elif o.get("fetched"):
-                res = "ok" if any(p["id"] in allowed for p in ps) else "failed"
+                res = "ok" if any(p["id"] in allowed and p.get("v", "ok") not in rej for p in ps) else "failed"
             else:
                 res = "nofetch"
             fk = f.get("k", "na") if o.get("fetched") else "na"
             sc, raw = tables()
-            evs.append({"ev": "tick", "f": {"k": fk, "ps": ps if fk == "ok" else []}, "res": res, "s": _state_ev(s), "sc": sc, "raw": raw})
+            evs.append({"ev": "tick", "f": {"k": fk, "ps": evps(ps) if fk == "ok" else []}, "res": res, "s": _state_ev(s), "sc": sc, "raw": raw})
             if res in ("idle", "panic"):
                 break
         elif kind == "report":
@@ -699,16 +770,18 @@ def mc_run(c, prop, name, expect=(), oracle=False, timeout=1500, **kw):
     return r
 
 
-def gen_replay(c, prop, binp, name, policy="closure", nometa=(), late=1, allowed=None, max_hist=None, timeout=2400, **kw):
+def gen_replay(c, prop, binp, name, policy=None, attach="vec", late=1, max_hist=None, timeout=2400, **kw):
     """generation run (one history per distinct state) -> replay on the real path set -> P-monitors + conformance"""
     import os
     kw = dict(kw)
     kw["gen"] = True
     kw["invariants"] = []
-    p = _cfgfile(c, name + ".cfg", mc_cfg(late=late, **kw))
-    if allowed is not None:
-        txt = open(p).read().replace("Allowed <- UAllowed", "Allowed = %s" % tla_set(allowed))
-        open(p, "w").write(txt)
+    if policy is None:
+        policy = "acl" if kw["u"] == "A" else "none"
+    rejected = rejected_variants(policy) if kw["u"] == "A" else []
+    if kw.get("bad_set") and not rejected:
+        raise ValueError("bad_set needs a policy set that rejects some object variant")
+    p = _cfgfile(c, name + ".cfg", mc_cfg(late=late, policy=policy, **kw))
     r = c.tlc(SD, "MC_PathSet", cfg=p, timeout=timeout, coverage=False)
     hs = c.printed_json(r, "REPLAY")
     if not hs:
@@ -719,12 +792,12 @@ def gen_replay(c, prop, binp, name, policy="closure", nometa=(), late=1, allowed
         import random
         rnd = random.Random(c.seed)
         hs = rnd.sample(hs, max_hist)
-    meta = harness_meta(kw["u"], cfg=kw.get("cfg"), policy=policy, late=late, nometa=nometa)
+    meta = harness_meta(kw["u"], cfg=kw.get("cfg"), policy=policy, late=late, attach=attach)
     inp = os.path.join(c.work, name + "_in.ndjson")
     outp = os.path.join(c.work, name + "_out.ndjson")
     rows, exps = [meta], []
-    for h in hs:
-        a, e = tlc_history_to_actions(h)
+    for n_, h in enumerate(hs):
+        a, e = tlc_history_to_actions(h, rejected, salt=n_)
         rows.append({"h": a})
         exps.append(e)
     from vcommon import write_ndjson
@@ -780,15 +853,17 @@ def gen_replay(c, prop, binp, name, policy="closure", nometa=(), late=1, allowed
     return st
 
 
-def record_validate(c, prop, binp, name, u, cfg=None, policy="closure", nometa=(), late=1, runs=10, steps=200, salt=0,
-                    issues=None, exp_choices=None, burst=3, fix_expiry=True, fix_fifo=True, validate=True):
+def record_validate(c, prop, binp, name, u, cfg=None, policy=None, attach="vec", late=1, runs=10, steps=200, salt=0,
+                    issues=None, exp_choices=None, burst=3, p_variant=0, fix_expiry=True, fix_fifo=True, validate=True):
     """seeded worker-faithful random histories on the real path set -> P-monitors (Python, on real outputs) and
     TLC trace validation against PathSet (Trace_PathSet)."""
     import os
-    extra = {"runs": runs, "steps": steps, "salt": salt, "burst": burst}
+    if policy is None:
+        policy = "acl" if u == "A" else "none"
+    extra = {"runs": runs, "steps": steps, "salt": salt, "burst": burst, "p_variant": p_variant}
     if exp_choices:
         extra["exp_choices"] = list(exp_choices)
-    meta = harness_meta(u, cfg=cfg, policy=policy, late=late, nometa=nometa, extra=extra)
+    meta = harness_meta(u, cfg=cfg, policy=policy, late=late, attach=attach, extra=extra)
     if issues is not None:
         meta["issues"] = [i for i in meta["issues"] if i["id"] in issues]
     mp = os.path.join(c.work, name + "_meta.json")
@@ -834,7 +909,7 @@ def validate_runs(c, name, meta, allruns, st, fix_expiry=True, fix_fifo=True):
     cfgp = _cfgfile(c, name + "_trace.cfg", trace_cfg(meta, fix_expiry=fix_expiry, fix_fifo=fix_fifo))
     evruns = []
     for run in allruns:
-        ev = run_to_events(run, set(mon.allowed))
+        ev = run_to_events(run, set(mon.allowed), mon.rej)
         if ev is not None and len(ev) > 1:
             evruns.append((run["run"], ev))
     for attempt in range(6):
@@ -848,22 +923,34 @@ def validate_runs(c, name, meta, allruns, st, fix_expiry=True, fix_fifo=True):
             starts.append((len(rows) + 1, rid))
             rows += ev
         write_ndjson(tp, rows)
-        r = c.tlc(SD, "Trace_PathSet", cfg=cfgp, mode="trace", env={"TRACE": tp}, timeout=3000)
-        for inv in r.violated:
-            c.drift("trace %s: structural invariant %s of the I-spec violated on a recorded execution (see %s)" % (name, inv, r.out_path))
+        r = c.tlc(SD, "Trace_PathSet", cfg=cfgp, mode="trace", env={"TRACE": tp}, timeout=3000, expect_violation=True)
         if r.ok and not r.postcondition_failed and not r.violated:
             st["accepted_runs"] += len(evruns)
             break
         txt = open(r.out_path).read()
         import re
-        m = re.search(r'"first unmatched line", (\d+)', txt)
-        if not m:
-            c.drift("trace %s not accepted and no unmatched line reported (see %s)" % (name, r.out_path))
-            break
-        line_no = int(m.group(1))
-        bad = max((s_ for s_ in starts if s_[0] <= line_no), default=starts[0])
-        um = [l for l in txt.splitlines() if l.startswith('<<"UNMATCHED"')]
-        c.drift("trace %s: run %d not accepted by Trace_PathSet at event line %d: %s" % (name, bad[1], line_no, (um[0] if um else "")[:300]))
+        if r.violated:
+            # a P-invariant evaluated by TLC on the (so far accepted) recorded execution of the real code
+            ls = re.findall(r"^/\\ l = (\d+)", txt, re.M)
+            line_no = int(ls[-1]) - 1 if ls else starts[0][0]
+            bad = max((s_ for s_ in starts if s_[0] <= line_no), default=starts[0])
+            for inv in r.violated:
+                key = TRACE_INV_KEYS.get(inv)
+                if key and key[0] == getattr(c, "id", None):
+                    c.violation(key[1].replace("<policy>", meta["policy"]),
+                                "TLC: invariant %s violated on recorded run %d of %s (event line %d, see %s)" % (inv, bad[1], name, line_no, r.out_path),
+                                {"trace": tp, "tlc_out": r.out_path, "line": line_no})
+                elif not key:
+                    c.drift("trace %s: structural invariant %s of the I-spec violated on recorded run %d (see %s)" % (name, inv, bad[1], r.out_path))
+        else:
+            m = re.search(r'"first unmatched line", (\d+)', txt)
+            if not m:
+                c.drift("trace %s not accepted and no unmatched line reported (see %s)" % (name, r.out_path))
+                break
+            line_no = int(m.group(1))
+            bad = max((s_ for s_ in starts if s_[0] <= line_no), default=starts[0])
+            um = [l for l in txt.splitlines() if l.startswith('<<"UNMATCHED"')]
+            c.drift("trace %s: run %d not accepted by Trace_PathSet at event line %d: %s" % (name, bad[1], line_no, (um[0] if um else "")[:300]))
         st["rejected"] += 1
         idx = [k for k, s_ in enumerate(starts) if s_ == bad][0]
         st["accepted_runs"] += idx      # the runs before the rejected one were matched completely
@@ -905,7 +992,7 @@ def binding_selftest(c, binp):
     makes TLC reject it; a harness-side adapter mutant that violates the property is reported by the P-monitors."""
     import os
     from vcommon import write_ndjson
-    meta = harness_meta("A", extra={"runs": 3, "steps": 80, "salt": 99, "burst": 2})
+    meta = harness_meta("A", policy="acl", extra={"runs": 3, "steps": 80, "salt": 99, "burst": 2, "p_variant": 0})
     mp = os.path.join(c.work, "self_meta.json")
     json.dump(meta, open(mp, "w"))
     outp = os.path.join(c.work, "self_runs.ndjson")
@@ -919,7 +1006,7 @@ def binding_selftest(c, binp):
     mon = Monitor(meta)
     rows = [trace_meta(meta)]
     for run in runs:
-        ev = run_to_events(run, set(mon.allowed))
+        ev = run_to_events(run, set(mon.allowed), mon.rej)
         if ev:
             rows += ev
     ticks = [i for i, e in enumerate(rows) if e.get("ev") == "tick" and e["res"] == "ok" and e["s"]["cache"]]
@@ -955,3 +1042,48 @@ def binding_selftest(c, binp):
     if not hit or not {"PolicyHonoured", "LiveAtHandout"} <= keys:
         c.fail_tool("binding self-test: adapter mutant (forbidden, expired path in the slot) not reported by the P-monitors: %s" % keys)
     c.cov["binding_selftest"] = "orig accepted; corrupt-field and drop-event rejected; adapter mutant reported"
+
+
+# ----------------------------------------------------------------------------- real-time smoke run
+def realtime_smoke(c, prop, binp, life=14, total_ms=24000):
+    """Real MultiPathManager, real worker task, real clock, public API only (cached_path / PathManager::path_wait):
+    first lookup returns path 1 (lifetime `life` s, threshold 3 s) and the policy-violating path 4, later lookups fail
+    (default backoff: 90 s).  Judged only >= 5 s away from every instant the code reads from the clock (S4)."""
+    import os
+    meta = harness_meta("A", extra={"life": life, "total_ms": total_ms})
+    mp = os.path.join(c.work, "rt_meta.json")
+    with open(mp, "w") as f:
+        json.dump(meta, f)
+    outp = os.path.join(c.work, "rt_out.json")
+    rc, so = c.sh([binp, "realtime", mp, outp], timeout=total_ms / 1000 + 120)
+    if rc != 0:
+        c.fail_tool("realtime harness failed rc=%s %s" % (rc, getattr(c, "last_stderr", "")[-300:]))
+    o = json.load(open(outp))
+    if o.get("rejected"):
+        c.drift("real-time run: MultiPathManager::new rejected the configuration: %s" % o["rejected"])
+        return 0
+    n = 0
+    for s in o["samples"]:
+        ms = s["ms"]
+        if s["k"] == "path":
+            n += 1
+            if prop == "C05" and s["id"] != 1:
+                c.violation("PolicyHonoured:real-worker", "real MultiPathManager handed out path %s (%s at %d ms); only path 1 satisfies the policy"
+                            % (s["id"], s["via"], ms), {"realtime": o})
+            if prop == "C06" and s.get("exp_s") is not None and s["exp_s"] * 1000 <= ms - 5000:
+                c.violation("LiveAtHandout:real-worker-hands-out-expired-path",
+                            "real MultiPathManager handed out path %s via %s at %.1f s, %.1f s after its expiry" % (s["id"], s["via"], ms / 1000.0, ms / 1000.0 - s["exp_s"]),
+                            {"realtime": o})
+        elif s["k"] == "panic":
+            if prop == "C06" and ms >= life * 1000 + 5000 and "expired path" in s.get("msg", ""):
+                c.violation("LiveAtHandout:real-worker-hands-out-expired-path",
+                            "real MultiPathManager: %s hit '%s' at %.1f s (path expired at %d s)" % (s["via"], s.get("msg"), ms / 1000.0, life), {"realtime": o})
+            elif prop == "C06" and "expired path" not in s.get("msg", ""):
+                c.violation("Panic:real-worker:%s" % s.get("msg", "")[:40], "real MultiPathManager: %s panicked: %s" % (s["via"], s.get("msg")), {"realtime": o})
+        elif s["k"] == "none":
+            if prop == "C06" and 5000 <= ms <= (life - 3 - 5) * 1000:
+                c.violation("NoStarvation:real-worker", "real MultiPathManager returned no path via %s at %.1f s although path 1 is valid until %d s" % (s["via"], ms / 1000.0, life - 3),
+                            {"realtime": o})
+    c.cov["realtime_samples"] = len(o["samples"])
+    c.cov["realtime_lookups_ms"] = o.get("lookups_ms")
+    return len(o["samples"])
